@@ -252,6 +252,7 @@ pub fn case_from_bytes(p: &Profile, data: &[u8]) -> Option<Case> {
         guard_syncs: s.pct(15),
         stream_wakes_on_drop: s.pct(30),
         payload_bomb: false,
+            unwinding_attempts: false,
     };
     let ncallers = s.range(p.callers.0, p.callers.1);
     let mut callers = vec![];
